@@ -35,21 +35,24 @@ def _run_once(lines, timeout):
     return got
 
 
-def impl_guarded(lines, chunk=400, timeout=90):
+HANGS = [0]   # hangs seen in this run (all sections)
+
+
+def impl_guarded(lines, chunk=400, timeout=30):
     """Like vlib.impl, but a non-terminating evaluation (the harness only flushes at
     exit) costs one time-out instead of one per line: the hanging line answers
     `timeout`, lines not run answer `skipped`; after two hangs nothing more is run."""
-    out, hangs = [], 0
+    out = []
     for c in range(0, len(lines), chunk):
         part = lines[c:c + chunk]
-        if hangs >= 2:
+        if HANGS[0] >= 2:
             out += ["skipped"] * len(part)
             continue
         res = _run_once(part, timeout)
         if res is not None:
             out += res
             continue
-        hangs += 1
+        HANGS[0] += 1
         done = 0
         for l in part:
             r = _run_once([l], 10)
@@ -154,17 +157,22 @@ def nontrivial(line):
 
 
 def lengths(thr, tier, rng):
-    ls = set(range(0, 13))
-    for m in (1, 2, 3, 4, 5, 6):
-        for d in (-1, 0, 1, 2):
-            ls.add(max(0, m * thr + d))
-    ls.update([2 * thr + 3, 4 * thr + 3, 100, 127, 128, 129, 199, 200])
-    ls = {l for l in ls if l <= max(200, 6 * thr + 2)}
-    extra = 80 if tier == "quick" else 400
+    """(length, repetitions): every length 0..200 (0..400 thorough); more repetitions at the
+    boundaries: 0..12 and around every multiple / power-of-two multiple of the threshold."""
     top = 200 if tier == "quick" else 400
-    for _ in range(extra):
-        ls.add(rng.randrange(0, top + 1))
-    return sorted(ls)
+    base, boost = (2, 8) if tier == "quick" else (8, 30)
+    special = set(range(0, 13))
+    for m in (1, 2, 3, 4, 5, 6, 8):
+        for d in (-1, 0, 1, 2):
+            special.add(max(0, m * thr + d))
+    special.update([2 * thr + 3, 4 * thr + 3, 127, 128, 129, top - 1, top])
+    out = []
+    for n in range(0, top + 1):
+        out.append((n, boost if n in special else base))
+    for n in sorted(special):
+        if n > top and n <= 8 * thr + 2 and n < 480:
+            out.append((n, boost))
+    return out
 
 
 def gen_keys(rng, n, style):
@@ -212,9 +220,8 @@ def gen_int_lines(rep, thr):
     ]
     lines += corpus
     styles = ["few", "dups", "asc", "desc", "runs", "wide"]
-    per_len = 6 if rep.tier == "quick" else 12
-    for n in lengths(thr, rep.tier, rng):
-        for _ in range(per_len):
+    for n, reps in lengths(thr, rep.tier, rng):
+        for _ in range(reps):
             ks = gen_keys(rng, n, rng.choice(styles))
             s = ks_str(ks)
             lines.append("sort sort %d %s" % (thr, s))
@@ -247,7 +254,7 @@ def gen_int_lines(rep, thr):
         for x in range(-1, (max(a) if a else 0) + 2):
             lines.append("sort member %d %s" % (x, ks_str(a)))
     # larger random sets with controlled overlap
-    nbig = 400 if rep.tier == "quick" else 4000
+    nbig = 400 if rep.tier == "quick" else 8000
     for _ in range(nbig):
         u = rng.randrange(2, 90)
         pool = rng.sample(range(-u, 2 * u), u)
@@ -273,7 +280,7 @@ def gen_int_lines(rep, thr):
         d = sorted(a + [k for k in a if rng.random() < 0.3])
         lines.append("sort member %d %s" % (rng.choice(d) if d else 0, ks_str(d)))
     # malformed stream: the walks on arrays that are not sets (no oracle; model must still agree)
-    nbad = 100 if rep.tier == "quick" else 2000
+    nbad = 100 if rep.tier == "quick" else 5000
     for _ in range(nbad):
         a = [rng.randrange(0, 6) for _ in range(rng.randrange(0, 9))]
         b = [rng.randrange(0, 6) for _ in range(rng.randrange(0, 9))]
@@ -449,9 +456,9 @@ def check_generic(src, exp, out):
 # ---------------------------------------------------------------- run / replay
 
 def run(rep):
-    rep.rule = ("integer-key arrays (many duplicates; styles few/dups/asc/desc/runs/wide) of every length 0..12, "
-                "around every multiple of the extracted merge/quick threshold (k*thr-1..k*thr+2, k=1..6), "
-                "100..200 and random lengths; all key vectors over {0,1,2} up to length 5 (7 thorough); "
+    rep.rule = ("integer-key arrays (many duplicates; styles few/dups/asc/desc/runs/wide) of every length 0..200 "
+                "(0..400 thorough), with more repetitions at 0..12 and around every multiple of the extracted "
+                "merge/quick threshold (k*thr-1..k*thr+2, k=1..6,8); all key vectors over {0,1,2} up to length 5 (7 thorough); "
                 "set operations on all pairs of subsets of a 4 (6) element universe + random larger sets with "
                 "sub/super/equal/disjoint/mixed overlap; binary search on all subsets with every probe; "
                 "plus string / float / array / nested-array keys with projecting and identity keyF. "
@@ -469,6 +476,7 @@ def run(rep):
         "arrays only model = implementation is checked",
     ]
     vlib.prelude(rep)
+    HANGS[0] = 0
     thr = extract_threshold()
     rep.extra["extracted_threshold"] = thr
     if thr is None:
@@ -511,7 +519,7 @@ def run(rep):
                              {"case": {"key": line}, "impl": a[:2000], "model": b[:2000]})
 
     # 2. other key kinds through `eval` (direct oracle only)
-    ngen = 600 if rep.tier == "quick" else 6000
+    ngen = 600 if rep.tier == "quick" else 12000
     gsrc, gexp, gnt = [], [], []
     shapes = [0, 1, 2, 3, 5, 8, thr - 1, thr, thr + 1, 2 * thr + 1, 3 * thr + 5]
     for i in range(ngen):
